@@ -112,6 +112,19 @@ Theorem C11_open_after_close_refuted :
 Proof. exact open_after_close_refuted. Qed.
 Print Assumptions C11_open_after_close_refuted.
 
+(* the reader's send into a connection's queue.  The reader looks the connection up, releases the lock and then sends;
+   a conn.Close may come in between.  The queue's channel is never closed (MuxConsts.readq_never_closed, read from mux.go on
+   every run), so whatever happened to the connection meanwhile the send queues the frame or finds the queue full: it cannot
+   panic — which is what lets the model treat lookup and send as one step *)
+Theorem C11_send_cannot_panic : forall c qlen, send_to (negb readq_never_closed) c qlen <> SendPanic.
+Proof. exact send_cannot_panic. Qed.
+Print Assumptions C11_send_cannot_panic.
+
+(* the variant in which conn.Close closes the queue's channel: a send to a connection closed in that gap panics *)
+Theorem C11_send_after_close_refuted : exists c qlen, send_to true (c_unmap c) qlen = SendPanic.
+Proof. exact send_after_close_refuted. Qed.
+Print Assumptions C11_send_after_close_refuted.
+
 (* stale handles.  An id whose connection was closed by conn.Close can be opened again: Open makes a fresh
    connection object, the old object is a stale handle.  conn.Close removes the id from the map only if the
    map still holds that very connection (MuxConsts.close_checks_identity, read from mux.go on every run), so
@@ -142,6 +155,7 @@ Print Assumptions C11_drain_after_close.
 
 (* the peer's stream ending on a frame boundary (orderly close) is reported as end-of-file *)
 Theorem C11_eof_after_orderly_end : forall s,
+  m_blocked s = false ->
   m_reader_done s = false -> m_closed s = false -> m_rx s = [] -> m_err s = None ->
   m_err (reader_step s) = Some EEOF /\ m_closed (reader_step s) = true.
 Proof. exact eof_after_orderly_end. Qed.
